@@ -1,3 +1,2 @@
--- This module serves as the root of the `O2P` library.
--- Import modules here that should be built as part of the library.
-import O2P.Basic
+-- Root of the `O2P` library: models, generated facts, property theorems.
+import O2P.Props.C16
